@@ -161,7 +161,10 @@ def run_history(case, ctx, rng):
     cplxA = np.iscomplexobj(A)
     solved = {"N": [], "T": [], "H": []}
     had_complex_rhs = False
-    ops = ["new", "new", "repeat", "combo", "combo", "zero", "block", "blockdep", "cplx", "x0", "x0span", "update", "newpattern"]
+    ops = ["new", "new", "repeat", "combo", "combo", "zero", "block", "blockdep", "cplx", "x0", "x0span", "blockx0", "update", "newpattern"]
+    # the tolerances of the wrapper are relative: right-hand sides of any magnitude (nN loads, GPa stresses) are admissible
+    bs = float(10.0 ** rng.uniform(-10, 10)) if rng.random() < 0.4 else 1.0
+    nA = float(np.linalg.norm(A)) / np.sqrt(n)
     log = []
     nres = 0
     for k in range(case["nops"]):
@@ -196,7 +199,7 @@ def run_history(case, ctx, rng):
             cs = coef(len(idx))
             b = sum(c * prev[i] for c, i in zip(cs, idx))
             if op == "x0span":
-                x0 = rng.standard_normal(n).astype(b.dtype)
+                x0 = rng.standard_normal(n).astype(b.dtype) / (nA * bs) * 1.0
         elif op == "zero":
             b = np.zeros(n)
         elif op == "block":
@@ -214,8 +217,19 @@ def run_history(case, ctx, rng):
             b = rng.standard_normal(n) + 1j * rng.standard_normal(n)
         elif op == "x0":
             b = rng.standard_normal(n)
-            x0 = rng.standard_normal(n)
+            x0 = rng.standard_normal(n) / nA
+        elif op == "blockx0":
+            # block with an initial guess in which only some columns need the inner solver (zero / in-span / new columns mixed)
+            b = rng.standard_normal((n, 3)).astype(complex if cdata else float)
+            b[:, 1] = 0.0
+            if prev:
+                b[:, 2] = prev[int(rng.integers(len(prev)))] / bs
+            x0 = rng.standard_normal((n, 3)).astype(b.dtype) / nA
         b = np.asarray(b)
+        if op not in ("repeat", "combo", "x0span"):
+            b = b * bs
+        if x0 is not None:
+            x0 = x0 * bs
         span = _in_span(b, prev)
         bb = b.reshape(n, -1)
         zero = np.linalg.norm(bb, axis=0) == 0
@@ -228,7 +242,20 @@ def run_history(case, ctx, rng):
                 warnings.simplefilter("ignore")
                 x = w.solve(b.copy(), x0=None if x0 is None else x0.copy(), trans=trans)
         except Exception as e:  # noqa: BLE001
-            # replay on a fresh wrapper around a fresh inner solver with the current matrix
+            # transparency: replay the same call on the bare inner solver (fresh instance, current matrix) ...
+            bare_ok = True
+            try:
+                with warnings.catch_warnings():
+                    warnings.simplefilter("ignore")
+                    s2 = make_inner(case["inner"])
+                    s2.update(matgen.to_storage(A, st))
+                    s2.solve(b.copy(), x0=None if x0 is None else x0.copy(), trans=trans)
+            except Exception:
+                bare_ok = False
+            if bare_ok:
+                raise Violation(f"wrapped-call-fails-where-bare-inner-solver-succeeds/{type(e).__name__}@{exc_site(e)}",
+                                op=desc, error=short_exc(e), history=log[-8:], inner=case["inner"])
+            # ... and on a fresh wrapper around a fresh inner solver
             w2 = LDAWrapper(make_inner(case["inner"]), tol=tol)
             try:
                 with warnings.catch_warnings():
